@@ -31,18 +31,25 @@ P("C02", "proof", "Lean 4 theorems (decomposition after the prefix = split-based
   "(prefixVerbatim_guards_redundant). "
   "Exact conditions also for UNC and verbatim-UNC prefixes with a share and verbatim prefixes with a name other than "
   "`UNC` (Win.unc_complete_iff, Win.verbatim_unc_complete_iff, Win.verbatim_named_iff). "
-  "Partial: exact conditions for the incomplete corners only (`\\\\?\\` alone, `\\\\server` without a share, "
-  "`\\\\?\\UNC\\` without a server, `\\\\.\\` without a device, blank verbatim name, which the documentation leaves open) are NOT "
-  "proved; for the full classification the harness's independent grammar (spec.rs win_prefix, "
-  "DESIGN A.2, validated on 205k inputs in the design round) is compared with the implementation on the near-miss "
-  "domain (11-letter alphabet, all 256 drive bytes, 21 prefix seeds x tails) on every run. Model=code by differential "
-  "testing. 'On every host platform': only a Linux host can be built here.",
+  "The near-misses too (Props/C02c): exact conditions for the four incomplete results — `\\\\?\\` followed by a "
+  "separator is Verbatim(\"\") (verbatim_empty_iff), `\\\\?\\UNC` with no server is Verbatim(\"UNC\") (verbatim_UNC_name_iff), "
+  "`\\\\server` with no share is UNC(server, \"\") with the one separator consumed, server `?` / `.` included exactly "
+  "when the verbatim / device alternatives cannot apply (unc_noshare_iff), `\\\\?\\UNC\\server` with no share "
+  "(verbatim_unc_noshare_iff) — that every result is complete or one of these four (prefix_result_classified), and "
+  "that there is NO prefix exactly when the input neither starts with `letter:` nor with two separators and a "
+  "non-separator byte (prefix_none_iff). With the complete kinds this characterises every outcome of the prefix parser "
+  "by the shape of the input. "
+  "The harness's independent grammar (spec.rs win_prefix, DESIGN A.2) is still compared with the implementation on "
+  "the near-miss domain (11-letter alphabet, all 256 drive bytes, 21 prefix seeds x tails) on every run. Model=code by "
+  "differential testing. 'On every host platform': only a Linux host can be built here.",
   theorems=["TP.C02.win_decomp", "TP.C02.win_prefix_unique_first", "TP.C02.win_prefix_raw", "TP.C02.win_drive_ascii_upper",
             "TP.C02.kind_sets_eq", "TP.C02.win_queries", "TP.C02.compsT_eq_bodySpec",
             "TP.C02b.disk_iff", "TP.C02b.verbatim_disk_iff", "TP.C02b.device_ns_iff", "TP.C02b.kind_header",
             "TP.C02b.prefixVerbatim_guards_redundant", "TP.C02b.takeNormal_iff",
-            "TP.Win.unc_complete_iff", "TP.Win.verbatim_unc_complete_iff", "TP.Win.verbatim_named_iff", "TP.Win.parsePrefix_alts"],
-  modules=["TypedPathVerif.Props.C02b", "TypedPathVerif.Lemmas.WinStable"],
+            "TP.Win.unc_complete_iff", "TP.Win.verbatim_unc_complete_iff", "TP.Win.verbatim_named_iff", "TP.Win.parsePrefix_alts",
+            "TP.C02c.verbatim_empty_iff", "TP.C02c.verbatim_UNC_name_iff", "TP.C02c.unc_noshare_iff", "TP.C02c.verbatim_unc_noshare_iff",
+            "TP.C02c.prefix_result_classified", "TP.C02c.prefix_none_iff"],
+  modules=["TypedPathVerif.Props.C02b", "TypedPathVerif.Lemmas.WinStable", "TypedPathVerif.Props.C02c"],
   rule=NONTRIV + "non-trivial = prefix or at least two components", design_ref="§5 C02")
 
 P("C03", "proof", "Lean 4 theorems (induction over tokens and over the step list) + model/code correspondence",
